@@ -5,7 +5,6 @@ package ssh
 import (
 	"math/big"
 	"reflect"
-	"strings"
 )
 
 // Hooks for the /verif harness, property C24 (wire encoding). Add-only; compiled only with -tags verif.
@@ -173,22 +172,16 @@ func VerifNew(name string) interface{} {
 // VerifDecode exposes the packet decoder.
 func VerifDecode(packet []byte) (interface{}, error) { return decode(packet) }
 
-// VerifErrClass maps an Unmarshal/decode error to the small enum the property talks about:
-// "type" (wrong message type), "short" (input ends inside a field), "parse" (empty input or trailing bytes).
+// VerifErrClass maps an Unmarshal/decode error to what its Go VALUE tells (never its text): "short" for the
+// sentinel errShortRead, "err" for everything else (the package's other errors are untyped fmt.Errorf values).
 func VerifErrClass(err error) string {
 	switch {
 	case err == nil:
 		return ""
 	case err == errShortRead:
 		return "short"
-	case strings.HasPrefix(err.Error(), "ssh: unmarshal error for field"):
-		return "short"
-	case strings.HasPrefix(err.Error(), "ssh: unexpected message type"):
-		return "type"
-	case strings.HasPrefix(err.Error(), "ssh: parse error in message type"):
-		return "parse"
 	}
-	return "other"
+	return "err"
 }
 
 // VerifMarshalInt runs intLength and marshalInt separately: marshalInt writes into a buffer that is
